@@ -7,9 +7,12 @@ package lock
 //
 // C13, lock.Context: the one-slot channel c.locked is a token. Ghost c.tokens counts the units of it that the
 // current goroutine owns (thread-local: +1 when its send on c.locked succeeds, -1 when it receives). Proved: an
-// acquisition that reports an error holds nothing, a successful one holds exactly one more unit, a release gives
-// one unit back. Mutual exclusion is the semantics of a 1-buffered channel and of sync.RWMutex (assumed);
-// OuterCancel's goroutine protocol is not covered.
+// acquisition that reports an error holds nothing, a successful one holds exactly one more unit and has taken the
+// RWMutex in the right mode exactly once, a release gives both back; the waiter blocks in ONE select whose cases are
+// the context's Done channel and the token channel (no default): "a waiter whose context ends stops waiting".
+// That Err() is non-nil once Done is closed is context.spec's law (ghost ctxdone, set where the receive from Done
+// completed), no longer an assumption of this file. Mutual exclusion is the semantics of a 1-buffered channel and of
+// sync.RWMutex (assumed). OuterCancel: second half of the file.
 
 //@ type Context
 //@   ghost tokens int
@@ -27,8 +30,13 @@ package lock
 //@   at every recv ghost c.tokens = c.tokens - (arg0 == c.locked ? 1 : 0)
 //@   ensures [C13.ctxlock.err] result != nil ==> c.tokens == old(c.tokens)
 //@   ensures [C13.ctxlock.ok] result == nil ==> c.tokens == old(c.tokens) + 1
+//@   ghost nrw int
+//@   at entry ghost nrw = 0
+//@   at every call Lock ghost nrw = nrw + (arg0 == c.lock ? 1 : 100)
+//@   ensures [C13.ctxlock.rw] nrw == (result == nil ? 1 : 0)
 //@   at select#0 ghost c.tokens = c.tokens + (res0 == 1 ? 1 : 0)
-//@   at call Err#0 assume res0 != nil
+//@   at select#0 assert [C13.ctxlock.waits-on-ctx] arg0 == ctx.donech && arg1 == c.locked && res0 >= 0
+//@   at select#0 ghost ctx.ctxdone = ctx.ctxdone || res0 == 0
 
 //@ func (*Context).RLock
 //@   tags C13 C07
@@ -37,13 +45,22 @@ package lock
 //@   at every recv ghost c.tokens = c.tokens - (arg0 == c.locked ? 1 : 0)
 //@   ensures [C13.ctxrlock.err] result != nil ==> c.tokens == old(c.tokens)
 //@   ensures [C13.ctxrlock.ok] result == nil ==> c.tokens == old(c.tokens) + 1
+//@   ghost nrw int
+//@   at entry ghost nrw = 0
+//@   at every call RLock ghost nrw = nrw + (arg0 == c.lock ? 1 : 100)
+//@   ensures [C13.ctxrlock.rw] nrw == (result == nil ? 1 : 0)
 //@   at select#0 ghost c.tokens = c.tokens + (res0 == 1 ? 1 : 0)
-//@   at call Err#0 assume res0 != nil
+//@   at select#0 assert [C13.ctxrlock.waits-on-ctx] arg0 == ctx.donech && arg1 == c.locked && res0 >= 0
+//@   at select#0 ghost ctx.ctxdone = ctx.ctxdone || res0 == 0
 
 //@ func (*Context).Unlock
 //@   tags C13 C07
 //@   requires c != nil && c.tokens >= 1
 //@   ensures [C13.ctxunlock] c.tokens == old(c.tokens) - 1
+//@   ghost nrw int
+//@   at entry ghost nrw = 0
+//@   at every call Unlock ghost nrw = nrw + (arg0 == c.lock ? 1 : 100)
+//@   ensures [C13.ctxunlock.rw] nrw == 1
 //@   at every recv ghost c.tokens = c.tokens - (arg0 == c.locked ? 1 : 0)
 //@   at every send ghost c.tokens = c.tokens + (arg0 == c.locked ? 1 : 0)
 
@@ -51,19 +68,57 @@ package lock
 //@   tags C13 C07
 //@   requires c != nil && c.tokens >= 1
 //@   ensures [C13.ctxrunlock] c.tokens == old(c.tokens) - 1
+//@   ghost nrw int
+//@   at entry ghost nrw = 0
+//@   at every call RUnlock ghost nrw = nrw + (arg0 == c.lock ? 1 : 100)
+//@   ensures [C13.ctxrunlock.rw] nrw == 1
 //@   at every recv ghost c.tokens = c.tokens - (arg0 == c.locked ? 1 : 0)
 //@   at every send ghost c.tokens = c.tokens + (arg0 == c.locked ? 1 : 0)
 
-// C13, lock.OuterCancel: the bookkeeping of the single hold-handling goroutine. o.rcancels is the set of live
-// (registered, not yet released/cancelled) readers, keyed by a counter; o.lock is the one-slot token every hold
-// passes through (ghost o.tokens: units owned by the current goroutine, as for Context above). Proved for
-// handleHold: a new reader is registered under a key no live reader uses (so a writer's sweep over rcancels reaches
-// every live reader and a release deletes only its own entry); a writer's response is sent only after wg.Wait()
-// returned and with the token kept (handed to the writer's unlock function), a reader's hold gives the token back;
-// a hold that reports an error owns nothing. ghost o.draining: a writer has reset the counter while entries may
-// remain. Assumed (stated at the clause): when handleHold next takes rcancelLock after a writer's wg.Wait()
-// returned, rcancels is empty — the WaitGroup counts exactly the registered entries and handleHold runs on one
-// goroutine (Run) only; neither is within the contracts' reach.
+// C13, lock.OuterCancel. One goroutine (Run) handles all requests one after the other; o.lock is the one-slot token
+// every hold passes through (ghost o.tokens: units owned by the current goroutine, as for Context above); o.rcancels is
+// the set of live (registered, not yet released/cancelled) readers, keyed by a counter, each with its rcancelGrace.
+// What the clauses carry, sentence by sentence of the property:
+//  * "a writer is granted only after every earlier reader has released or had its context cancelled": the writer's
+//    answer is sent only after the sweep has started the cancellation of EVERY registered reader
+//    ([C13.outer.writer.sweep-all], via the range-over-map law) and wg.Wait() has returned ([..after-wait]); a reader is
+//    registered under a key no live reader uses ([..reader.fresh-slot]) with its rcancelGrace ([..registers-grace]) and
+//    told it holds only when registered ([C13.outer.resp.reader]); a release removes exactly its own registration and
+//    counts the reader off exactly once, after the removal ([C13.outer.release.own/.others/.once/.done-after-delete]).
+//  * "cancelled with the configured cause (not before the grace period)": [C13.outer.release.cause];
+//    [C13.outer.grace.duration/.waits/.then-cancel] (the timer's own timing is assumed).
+//  * "no reader admitted until the writer unlocks": the writer's hold keeps the token ([C13.outer.writer.keeps]) and hands
+//    it to its unlock function ([C13.outer.resp.writer], handleHold$1 gives it back); every hold starts by taking the
+//    token, a reader's hold returns it ([..reader.returns]).
+//  * "its parent context": the reader's context is derived from the caller's ([C13.outer.resp.reader] ctxparent).
+//  * "a waiter whose context ends stops waiting": [C13.outer.hold.waits-on-ctx] (handling side),
+//    [C13.outer.rlock.waits-on-ctx.queue] and [..answer] - the latter FAILS: known finding C13-D2.
+//  * "an acquisition that reports an error holds nothing": [C13.outer.resp.err-holds-nothing], [C13.outer.resp.shape],
+//    [C13.outer.rlock.err].
+//  * "shutdown": closeCh is closed only after Run's context ended ([C13.outer.shutdown.on-ctx]); Run's exit starts the
+//    cancellation of every registered reader ([C13.outer.shutdown.sweep-all]).
+// ASSUMED (stated at the clause, cannot be proved in this family): when handleHold next takes rcancelLock after a
+// writer's wg.Wait() returned, rcancels is empty (ghost o.draining: a writer has reset the counter while entries may
+// remain). It holds because the WaitGroup counts exactly the registered entries (Add under rcancelLock with the
+// registration, Done under rcancelLock after the removal - both proved) AND handleHold, the only function that
+// registers, runs on the single Run goroutine, so nothing is registered between Wait and the next hold. sync.WaitGroup
+// is `pure` in the libspec (no join semantics), "Run is started once" is the caller's obligation.
+// `opt go=ignore` (handleHold, Run, Run$1): what the spawned goroutines (rcancelGrace, the shutdown watcher) do to
+// OuterCancel's state is confined to rcancelLock-protected fields, which are havocked at every acquisition anyway;
+// which function value is spawned in the sweeps (the loop variable) is syntactic, not asserted.
+// Not covered: mutual exclusion / order of the one-slot channel, WaitGroup join, timer timing, "no reader cancelled
+// for any other reason" beyond the call sites of rcancelGrace being the two sweeps (syntactic), counter overflow
+// (`assume rcancelx < 2^64-1`: 2^64 readers between two writers).
+
+// Messages. A request (*hold) is written by Lock/RLock and handed to Run over o.ch; an answer (*holdresp) is written by
+// handleHold and handed back over the request's own response channel. `sent`: proved at every send, assumed at every
+// receive (channel hand-off). A request carries a one-slot response channel (so the answer never blocks the handling
+// goroutine) and a context exactly when it is a reader's; an answer that carries an error carries nothing else
+// ("an acquisition that reports an error holds nothing"), one without error carries the release function.
+//@ type hold
+//@   sent [C13.outer.req.shape] self != nil && self.respCh != nil && cap(self.respCh) == 1 && (self.writeLock ==> self.rctx == nil) && (!self.writeLock ==> self.rctx != nil)
+//@ type holdresp
+//@   sent [C13.outer.resp.shape] self != nil && (self.err != nil ==> (self.rctx == nil && self.cancel == nil)) && (self.err == nil ==> self.cancel != nil) && (self.rctx != nil ==> self.err == nil)
 
 //@ type OuterCancel
 //@   ghost tokens int
@@ -84,11 +139,13 @@ package lock
 //@   requires o != nil && h != nil && h.respCh != nil
 //@   requires h.writeLock ==> h.rctx == nil
 //@   requires !h.writeLock ==> h.rctx != nil
+//@   modifies o.rcancelx, mapsof(o.rcancels), o.tokens, o.draining, ctxdone
 //@   ensures [C13.outer.writer.keeps] h.writeLock ==> o.tokens == old(o.tokens) + 1
 //@   ensures [C13.outer.reader.returns] !h.writeLock ==> o.tokens == old(o.tokens)
 //@   ghost waited int
 //@   opt go=ignore
 //@   loop 0 invariant o == old(o) && h == old(h) && heldw(o.rcancelLock) && o.tokens == old(o.tokens) + 1 && waited == 0 && o.rcancels != nil
+//@   loop 0 invariant nspawn == rangecount && o.rcancels == at(LK, o.rcancels) && len(o.rcancels) == at(LK, len(o.rcancels)) && (forall k uint64 :: haskey(o.rcancels, k) == at(LK, haskey(o.rcancels, k)))
 //@   at select#0 ghost o.tokens = o.tokens + (res0 == 0 ? 1 : 0)
 //@   at every send ghost o.tokens = o.tokens + (arg0 == o.lock ? 1 : 0)
 //@   at every recv ghost o.tokens = o.tokens - (arg0 == o.lock ? 1 : 0)
@@ -99,14 +156,56 @@ package lock
 //@   at call Lock#0 ghost waited = 0
 //@   at call Wait#0 ghost waited = 1
 //@   at send#2 assert [C13.outer.writer.after-wait] waited == 1
+//@   at call Lock#0 label LK
+//@   ghost nspawn int
+//@   at call Lock#0 ghost nspawn = 0
+//@   at every go ghost nspawn = nspawn + 1
+//@   at send#2 assert [C13.outer.writer.sweep-all] nspawn == at(LK, len(o.rcancels))
+//@   at select#0 assert [C13.outer.hold.waits-on-ctx] arg0 == o.lock && arg1 == h.rctx.donech && res0 >= 0
+//@   at select#0 ghost h.rctx.ctxdone = h.rctx.ctxdone || res0 == 1
+//@   at before send#0 assert [C13.outer.resp.err-holds-nothing] h.rctx != nil && !h.writeLock && arg0 == h.respCh && arg1 != nil && arg1.err != nil && arg1.rctx == nil && arg1.cancel == nil && o.tokens == old(o.tokens)
+//@   at before send#2 assert [C13.outer.resp.writer] arg0 == h.respCh && arg1 != nil && arg1.err == nil && arg1.rctx == nil && arg1.cancel != nil && isfunc(arg1.cancel, "(*OuterCancel).handleHold$1") && o.tokens == old(o.tokens) + 1
+//@   at before send#3 assert [C13.outer.resp.reader] arg0 == h.respCh && arg1 != nil && arg1.err == nil && arg1.rctx == rctx && rctx != nil && rctx.ctxparent == h.rctx && isfunc(arg1.cancel, "(*OuterCancel).handleHold$2") && at(UR, haskey(o.rcancels, i)) && at(UR, isfunc(o.rcancels[i], "(*OuterCancel).handleHold$3"))
+//@   at before call Unlock#1 label UR
 //@   at before mapupdate#0 assert [C13.outer.reader.fresh-slot] !haskey(o.rcancels, i)
+//@   at mapupdate#0 assert [C13.outer.reader.registers-grace] haskey(o.rcancels, i) && isfunc(o.rcancels[i], "(*OuterCancel).handleHold$3") && isfunc(rcancel, "(*OuterCancel).handleHold$2")
 
-// rcancel: a reader's release / cancellation. Under rcancelLock it deletes only the key the reader was registered
-// under; the key invariant is preserved.
+// rcancel (handleHold$2): a reader's release and its cancellation are the same function; the first call cancels the
+// reader's context with the configured cause, removes the reader's own registration (and only that one) and counts
+// the reader off the writer's WaitGroup exactly once; later calls do nothing.
 //@ func (*OuterCancel).handleHold$2
 //@   tags C13
 //@   requires o != nil && doneCh != nil && cancel != nil
 //@   opt go=ignore
+//@   at call Lock#0 label L
+//@   at before call Unlock#0 label U
+//@   ghost ndone int
+//@   ghost ncancel int
+//@   at entry ghost ndone = 0
+//@   at entry ghost ncancel = 0
+//@   at every call Done ghost ndone = ndone + 1
+//@   at every call CancelCauseFunc ghost ncancel = ncancel + 1
+//@   at before call CancelCauseFunc#0 assert [C13.outer.release.cause] arg0 == o.cancelErr
+//@   at every before call Done assert [C13.outer.release.done-after-delete] heldw(o.rcancelLock) && !haskey(o.rcancels, i)
+//@   ensures [C13.outer.release.own] forall k uint64 :: at(U, haskey(o.rcancels, k)) == (at(L, haskey(o.rcancels, k)) && !(k == i && !at(L, done)))
+//@   ensures [C13.outer.release.others] forall k uint64 :: k != i ==> at(U, o.rcancels[k]) == at(L, o.rcancels[k])
+//@   ensures [C13.outer.release.once] ndone == (at(L, done) ? 0 : 1) && ncancel == ndone && at(U, done)
+//@   ensures [C13.outer.release.counter] at(U, o.rcancelx) == at(L, o.rcancelx) && at(U, o.draining) == at(L, o.draining)
+
+// rcancelGrace (handleHold$3): what a writer (and shutdown) start for every registered reader. It cancels the reader
+// only after the grace period has elapsed, shutdown has begun, or the reader has released by itself - and then through
+// rcancel, i.e. with the configured cause. That time.After(d) does not fire before d has elapsed is the timer's
+// documented behaviour (assumed; time.After has no contract here).
+//@ func (*OuterCancel).handleHold$3
+//@   tags C13
+//@   requires o != nil && rcancel != nil && isfunc(rcancel, "(*OuterCancel).handleHold$2")
+//@   opt go=ignore
+//@   ghost sel int
+//@   at entry ghost sel = 0
+//@   at before call After#0 assert [C13.outer.grace.duration] arg0 == o.gracefulTimeout
+//@   at select#0 assert [C13.outer.grace.waits] res0 >= 0 && arg1 == o.closeCh && arg2 == doneCh
+//@   at select#0 ghost sel = sel + 1
+//@   at every before call funcvalue assert [C13.outer.grace.then-cancel] sel == 1 && isfunc(rcancel, "(*OuterCancel).handleHold$2") && !held(o.rcancelLock)
 
 // the writer's unlock function: gives the token back
 //@ func (*OuterCancel).handleHold$1
@@ -115,3 +214,71 @@ package lock
 //@   ensures [C13.outer.writer.unlock] o.tokens == old(o.tokens) - 1
 //@   at every recv ghost o.tokens = o.tokens - (arg0 == o.lock ? 1 : 0)
 //@   at every send ghost o.tokens = o.tokens + (arg0 == o.lock ? 1 : 0)
+
+// RLock / Lock (requester side). A request is queued on o.ch and answered on the request's own one-slot response
+// channel. "A waiter whose context ends stops waiting": both selects of RLock must have the context's Done channel
+// among their cases (and no default). [C13.outer.rlock.waits-on-ctx.answer] FAILS on the real code (known finding
+// C13-D2): while its request sits in o.ch, RLock only listens to closeCh and the response, so a reader whose context
+// has ended keeps waiting for as long as the handling goroutine is busy with a writer.
+// "An acquisition that reports an error holds nothing": [C13.outer.rlock.err] (from the answer's shape, proved at the
+// sender). Not transported to the receiver (answers are typed per message type, not per channel): that a writer's
+// request is never answered with an error and that a reader's answer carries a context; both are proved on the
+// sender's side only ([C13.outer.resp.err-holds-nothing] sits on the reader branch, [C13.outer.resp.reader]).
+//@ func (*OuterCancel).RLock
+//@   tags C13 C07
+//@   requires o != nil && ctx != nil
+//@   at select#0 ghost ctx.ctxdone = ctx.ctxdone || res0 == 1
+//@   at select#0 assert [C13.outer.rlock.waits-on-ctx.queue] res0 >= 0 && arg0 == o.closeCh && arg1 == ctx.donech && arg2 == o.ch && selsend == (res0 == 2)
+//@   at select#1 assert [C13.outer.rlock.waits-on-ctx.answer] res0 >= 0 && selhas(ctx.donech)
+//@   at select#1 assert [C13.outer.rlock.answer] arg0 == o.closeCh && arg1 == h.respCh
+//@   ensures [C13.outer.rlock.err] result2 != nil ==> (result == nil && result1 == nil)
+//@   ensures [C13.outer.rlock.ok] result2 == nil ==> result1 != nil
+
+// Lock takes no context and reports no error. While the lock is running it returns what the answer to its request
+// carries; after shutdown it hands out the shutdown mutex, locked (ghost viaAnswer: the second select chose the answer).
+//@ func (*OuterCancel).Lock
+//@   tags C13 C07
+//@   requires o != nil && o.shutdownLock != nil
+//@   ghost queued bool
+//@   ghost viaAnswer bool
+//@   at entry ghost queued = false
+//@   at entry ghost viaAnswer = false
+//@   at select#0 ghost queued = res0 == 1
+//@   at select#1 ghost viaAnswer = res0 == 1
+//@   at select#0 assert [C13.outer.lock.queue] res0 >= 0 && arg0 == o.closeCh && arg1 == o.ch && selsend == (res0 == 1)
+//@   at select#1 assert [C13.outer.lock.answer] res0 >= 0 && arg0 == o.closeCh && arg1 == h.respCh && queued
+//@   ensures [C13.outer.lock.shutdown] !viaAnswer ==> (isfunc(result, "(*github.com/dapr/kit/concurrency/fifo.Mutex).Unlock$bound") && bound(result, 0, "*github.com/dapr/kit/concurrency/fifo.Mutex") == o.shutdownLock && nsl == 1)
+//@   ensures [C13.outer.lock.running] viaAnswer ==> nsl == 0
+//@   ghost nsl int
+//@   at entry ghost nsl = 0
+//@   at every call Lock ghost nsl = nsl + (arg0 == o.shutdownLock ? 1 : 100)
+
+// Run: the single hold-handling goroutine. It serves o.ch until shutdown (closeCh), which Run$2 signals only after Run's
+// context has ended; on the way out Run$1 starts the cancellation of every reader that is still registered.
+//@ func (*OuterCancel).Run
+//@   tags C13 C07
+//@   requires o != nil && ctx != nil
+//@   opt go=ignore
+//@   loop 0 invariant o == old(o)
+//@   at every select assert [C13.outer.run.serves] res0 >= 0 && arg0 == o.closeCh && arg1 == o.ch
+
+//@ func (*OuterCancel).Run$1
+//@   tags C13
+//@   requires o != nil
+//@   opt go=ignore
+//@   at call Lock#0 label LK
+//@   ghost nspawn int
+//@   at call Lock#0 ghost nspawn = 0
+//@   at every go ghost nspawn = nspawn + 1
+//@   loop 0 invariant o == old(o) && heldw(o.rcancelLock) && o.rcancels != nil
+//@   loop 0 invariant nspawn == rangecount && o.rcancels == at(LK, o.rcancels) && len(o.rcancels) == at(LK, len(o.rcancels)) && (forall k uint64 :: haskey(o.rcancels, k) == at(LK, haskey(o.rcancels, k)))
+//@   at before call Unlock#0 assert [C13.outer.shutdown.sweep-all] nspawn == at(LK, len(o.rcancels))
+//@   at before call Unlock#0 assert [C13.outer.shutdown.keeps-registrations] (forall k uint64 :: haskey(o.rcancels, k) == at(LK, haskey(o.rcancels, k))) && o.rcancelx == at(LK, o.rcancelx) && o.draining == at(LK, o.draining)
+
+//@ func (*OuterCancel).Run$2
+//@   tags C13
+//@   requires o != nil && ctx != nil
+//@   ghost ended bool
+//@   at entry ghost ended = false
+//@   at every recv ghost ended = ended || arg0 == ctx.donech
+//@   at every before close assert [C13.outer.shutdown.on-ctx] ended && arg0 == o.closeCh
